@@ -31,7 +31,11 @@ __all__ = ['lvs_validator']
 
 
 def lvs_validator(checker: Checker, app: NDNApp, trust_anchor: BinaryStr,
-                  storage: PublicKeyStorage = MemoryKeyStorage()) -> Validator:
+                  storage: PublicKeyStorage | None = None) -> Validator:
+    if storage is None:
+        # Note: a default argument object would be one cache shared by every validator of the process
+        storage = MemoryKeyStorage()
+
     async def validate_name(name: FormalName, sig_ptrs: SignaturePtrs) -> bool:
         if (not sig_ptrs.signature_info or not sig_ptrs.signature_info.key_locator
                 or not sig_ptrs.signature_info.key_locator.name):
